@@ -135,6 +135,43 @@ def const_usize(src, name):
     return int(m.group(1))
 
 
+def fn_bodies(src, name):
+    """bodies of all `fn <name>` definitions (comments stripped)"""
+    src = strip_comments(src)
+    out = []
+    for m in re.finditer(r"fn " + name + r"\b[^;{]*", src):
+        # skip declarations without body (trait methods ending in `;`)
+        j = m.end()
+        if j < len(src) and src[j] == "{":
+            body, _ = block_after(src, m.start())
+            out.append(body)
+    return out
+
+
+def enclosing_fn(src, pos):
+    ms = list(re.finditer(r"fn ([A-Za-z0-9_]+)", src[:pos]))
+    return ms[-1].group(1) if ms else "?"
+
+
+ORD = r"(?:Ordering::)?(Relaxed|Release|Acquire|AcqRel|SeqCst)"
+
+
+def orderings(tag, src):
+    """memory orderings of the reference-count protocol and of the hand-written locks in one file"""
+    src = strip_comments(src)
+    # drop debug assertions (they do not license anything)
+    src = re.sub(r"debug_assert(?:_eq|_ne)?!\s*\((?:[^()]|\([^()]*\))*\)\s*;", "", src)
+    rel = [(tag, enclosing_fn(src, m.start()), m.group(1)) for m in re.finditer(r"\brc\s*\.\s*fetch_sub\(\s*1\s*,\s*" + ORD + r"\s*\)", src)]
+    lic = [(tag, enclosing_fn(src, m.start()), m.group(1)) for m in re.finditer(r"load_rc\(\s*" + ORD + r"\s*\)\s*(?:!=|==)\s*1", src)]
+    lic += [(tag, enclosing_fn(src, m.start()), m.group(1)) for m in re.finditer(r"\brc\s*\.\s*load\(\s*" + ORD + r"\s*\)\s*(?:!=|==)\s*1", src)]
+    # `let rc = node.load_rc(X); ... if rc != 1`
+    lic += [(tag, enclosing_fn(src, m.start()), m.group(1)) for m in re.finditer(r"let rc = [a-z_.]*load_rc\(\s*" + ORD + r"\s*\)\s*;", src)]
+    fen = [(tag, enclosing_fn(src, m.start()), m.group(1)) for m in re.finditer(r"fence\(\s*" + ORD + r"\s*\)", src)]
+    lk = [(tag, enclosing_fn(src, m.start()), m.group(1)) for m in re.finditer(r"\.swap\(\s*true\s*,\s*" + ORD + r"\s*\)", src)]
+    ul = [(tag, enclosing_fn(src, m.start()), m.group(1)) for m in re.finditer(r"\.store\(\s*false\s*,\s*" + ORD + r"\s*\)", src)]
+    return rel, lic, fen, lk, ul
+
+
 def lean_list(xs):
     return "[" + ", ".join(xs) + "]"
 
@@ -170,6 +207,23 @@ def main():
         die("gc water marks not found")
     lwm, hwm = int(m.group(1)), int(m.group(2))
 
+    ord_files = [
+        ("index/node", "crates/oxidd-manager-index/src/node/fixed_arity.rs"),
+        ("index/manager", "crates/oxidd-manager-index/src/manager.rs"),
+        ("index/terminals", "crates/oxidd-manager-index/src/terminal_manager/dynamic.rs"),
+        ("index/trylock", "crates/oxidd-manager-index/src/util/mod.rs"),
+        ("pointer/node", "crates/oxidd-manager-pointer/src/node/fixed_arity.rs"),
+        ("pointer/manager", "crates/oxidd-manager-pointer/src/manager.rs"),
+        ("pointer/trylock", "crates/oxidd-manager-pointer/src/util/mod.rs"),
+        ("cache/spinlock", "crates/oxidd-cache/src/util.rs"),
+    ]
+    rel, lic, fen, lk, ul = [], [], [], [], []
+    for tag, f in ord_files:
+        a, b, c, d, e = orderings(tag, read(f))
+        rel += a; lic += b; fen += c; lk += d; ul += e
+    if len(rel) < 3 or len(lic) < 4 or not lk or not ul:
+        die(f"memory orderings: expected the reference-count decrements (found {len(rel)}), the loads licensing a free (found {len(lic)}), lock/unlock sites (found {len(lk)}/{len(ul)})")
+
     L = []
     L.append("/-! GENERATED by tools/extract_tables.py from /repo's current source — do not edit. -/")
     L.append("namespace OxiddModel.Generated\n")
@@ -192,6 +246,20 @@ def main():
     L.append("")
     L.append(f"def tblRatioN : Nat := {ratio_n}\ndef tblRatioD : Nat := {ratio_d}\ndef tblMinCap : Nat := {min_cap}")
     L.append(f"def gcLwmPercent : Nat := {lwm}\ndef gcHwmPercent : Nat := {hwm}")
+    def trip(xs):
+        return lean_list([f'("{a}", "{b}", "{c}")' for a, b, c in xs])
+
+    L.append("")
+    L.append("/-- (file, function, ordering) of every reference-count decrement -/")
+    L.append(f"def rcDecrements : List (String × String × String) := {trip(rel)}")
+    L.append("/-- … of every load of a reference count whose comparison with 1 licenses freeing the node -/")
+    L.append(f"def rcFreeLoads : List (String × String × String) := {trip(lic)}")
+    L.append("/-- … of every fence -/")
+    L.append(f"def fences : List (String × String × String) := {trip(fen)}")
+    L.append("/-- … of the `swap(true, _)` of the hand-written locks (`TryLock`, the cache's spin mutex) -/")
+    L.append(f"def lockSwaps : List (String × String × String) := {trip(lk)}")
+    L.append("/-- … of their `store(false, _)` -/")
+    L.append(f"def unlockStores : List (String × String × String) := {trip(ul)}")
     L.append("\nend OxiddModel.Generated")
     text = "\n".join(L) + "\n"
     os.makedirs(os.path.dirname(OUT), exist_ok=True)
